@@ -67,6 +67,7 @@ fn main() {
     process::exit(2);
   };
 
+  ordverif::node::remove_stale_scratch_dirs();
   let mut session = Session::new(Args {
     id,
     tier,
